@@ -1,0 +1,222 @@
+//go:build verif
+
+// Machine-checked contracts for package bip39 (comment-only file; compiled
+// only under the `verif` build tag, and then it contributes nothing but the
+// package clause). The clauses are read by /verif/cmd/bipverif, which
+// generates verification conditions from the go/ssa form of the functions
+// named here and discharges them with z3 / cvc5.
+//
+// Clause bodies are Go expressions over: parameters (entry values in
+// requires/ensures, current values in loop invariants), locals by name,
+// package-level variables, `result`/`err`, ghost outputs, and the spec
+// vocabulary (implies, forall(j, lo, hi, body), old, len, val, seq, bytes,
+// be, sha0, shr11, digit, lst, widx, join, split, nfkd, ...).
+
+package bip39
+
+//@ define supportedL(l) = 0 <= l && l < 10
+//@ define V(b) = bigshl(be(b), blen(b)/4) + sha0(b)/pow2(8-blen(b)/4)
+//@ define isInverse(m, l) = m != 0 && forallS(w, dom(m, w) == (widx(l, w) >= 0) && implies(dom(m, w), mval(m, w) == widx(l, w)))
+
+// ---------------------------------------------------------------------------
+// package-level state
+
+//@ global chineseSimplifiedMapping  guarded_by chineseSimplifiedOnce  lang ChineseSimplified
+//@ global chineseTraditionalMapping guarded_by chineseTraditionalOnce lang ChineseTraditional
+//@ global englishMapping            guarded_by englishOnce            lang English
+//@ global frenchMapping             guarded_by frenchOnce             lang French
+//@ global italianMapping            guarded_by italianOnce            lang Italian
+//@ global japaneseMapping           guarded_by japaneseOnce           lang Japanese
+//@ global koreanMapping             guarded_by koreanOnce             lang Korean
+//@ global spanishMapping            guarded_by spanishOnce            lang Spanish
+//@ global czechMapping              guarded_by czechOnce              lang Czech
+//@ global portugueseMapping         guarded_by portugueseOnce         lang Portuguese
+
+//@ invariant mask11: val(last11BitsMask) == 2047 && val(first11BitsMask) == 2048
+
+// ---------------------------------------------------------------------------
+
+//@ func init
+//@   ensures [C07] default-source: cryptoRander == rand.Reader
+//@   ensures [C09,C15] sentinels: ErrWordLen != nil && ErrEntropyLen != nil && ErrChecksumIncorrect != nil && ErrWordLen != ErrEntropyLen && ErrWordLen != ErrChecksumIncorrect && ErrEntropyLen != ErrChecksumIncorrect
+
+//@ func Language.String
+//@   strings native
+//@   ensures [C16] name: implies(supported(i), result == declName(i))
+//@   ensures [C16] other: implies(!supported(i), result == cat(cat("Language(", itoa(i)), ")"))
+
+//@ func Language.list
+//@   ensures [C01,C02,C05,C08,C14] shape: ref(result) == wlref(effLang(lan)) && off(result) == 0 && len(result) == 2048
+
+//@ func NewMnemonicByEntropy
+//@   ensures [C09,C01,C02,C05] gate: (err == nil) == validLen(len(entropy))
+//@   ensures [C09] reject: implies(!validLen(len(entropy)), result == "" && is(err, ErrEntropyLen))
+//@   ensures [C09] nonempty: implies(err == nil, result != "")
+//@   ghost ws SSeq = fromEntropy_ws
+//@   ensures [C01,C02,C05] enc: implies(validLen(len(entropy)), result == join(ws, sepOf(lang)) && slen(ws) == 3*len(entropy)/4)
+//@   ensures [C01,C02,C05] words: implies(validLen(len(entropy)) && supported(lang), forall(j, 0, slen(ws), sat(ws, j) == lst(lang, digit(V(old(bytes(entropy))), slen(ws)-1-j))))
+//@   ensures [C13] pure: unchanged(entropy)
+
+//@ func fromEntropy
+//@   requires validLen(len(entropy)) && wordLen == 3*len(entropy)/4
+//@   split len(entropy) in {16,20,24,28,32} at entry
+//@   ghost ws SSeq = seq(wordList)
+//@   ensures [C01,C02,C05] enc: result == join(ws, sepOf(lg)) && slen(ws) == wordLen
+//@   ensures [C01,C02,C05] words: implies(supported(lg), forall(j, 0, wordLen, sat(ws, j) == lst(lg, digit(V(old(bytes(entropy))), wordLen-1-j))))
+//@   ensures [C09] nonempty: forall(j, 0, wordLen, sat(ws, j) != "")
+//@   loop 1 assigns BigVal[entInt], BigVal[wordIdx], SMem[wordList]
+//@   loop 1 invariant bounds: -1 <= i && i < wordLen && val(entInt) >= 0 && len(wordList) == wordLen && off(wordList) == 0
+//@   loop 1 invariant list: ref(lgList) == wlref(effLang(lg)) && off(lgList) == 0 && len(lgList) == 2048
+//@   loop 1 invariant refs: fresh(wordList) && fresh(entInt) && fresh(wordIdx) && entInt != wordIdx
+//@   loop 1 invariant value: val(entInt) == shr11(V(old(bytes(entropy))), wordLen-1-i)
+//@   loop 1 invariant done: forall(j, i+1, wordLen, wordList[j] == lst(effLang(lg), digit(V(old(bytes(entropy))), wordLen-1-j)))
+//@   loop 1 unfold shr11(V(old(bytes(entropy))), wordLen-i)
+//@   loop 1 decreases i + 1
+
+// ---------------------------------------------------------------------------
+// word -> index maps: one sync.Once per language guards the only writer
+
+//@ define prefixInverse(m, l, k) = m != 0 && forallS(w, dom(m, w) == (0 <= widx(l, w) && widx(l, w) < k) && implies(dom(m, w), mval(m, w) == widx(l, w)))
+
+//@ invariant [C02,C03,C08,C12] chineseSimplified-map: implies(done(chineseSimplifiedOnce), isInverse(chineseSimplifiedMapping, ChineseSimplified))
+//@ invariant [C02,C03,C08,C12] chineseTraditional-map: implies(done(chineseTraditionalOnce), isInverse(chineseTraditionalMapping, ChineseTraditional))
+//@ invariant [C02,C03,C08,C12] english-map: implies(done(englishOnce), isInverse(englishMapping, English))
+//@ invariant [C02,C03,C08,C12] french-map: implies(done(frenchOnce), isInverse(frenchMapping, French))
+//@ invariant [C02,C03,C08,C12] italian-map: implies(done(italianOnce), isInverse(italianMapping, Italian))
+//@ invariant [C02,C03,C08,C12] japanese-map: implies(done(japaneseOnce), isInverse(japaneseMapping, Japanese))
+//@ invariant [C02,C03,C08,C12] spanish-map: implies(done(spanishOnce), isInverse(spanishMapping, Spanish))
+//@ invariant [C02,C03,C08,C12] korean-map: implies(done(koreanOnce), isInverse(koreanMapping, Korean))
+//@ invariant [C02,C03,C08,C12] czech-map: implies(done(czechOnce), isInverse(czechMapping, Czech))
+//@ invariant [C02,C03,C08,C12] portuguese-map: implies(done(portugueseOnce), isInverse(portugueseMapping, Portuguese))
+
+//@ func Language.mapping$1
+//@   assigns chineseSimplifiedMapping
+//@   ensures [C02,C03,C08,C13] built: isInverse(chineseSimplifiedMapping, ChineseSimplified) && fresh(chineseSimplifiedMapping)
+//@   loop 1 assigns MDom[chineseSimplifiedMapping], MVal[chineseSimplifiedMapping]
+//@   loop 1 invariant range: -1 <= rangeindex && rangeindex < 2048 && fresh(chineseSimplifiedMapping)
+//@   loop 1 invariant prefix: prefixInverse(chineseSimplifiedMapping, ChineseSimplified, rangeindex+1)
+//@   loop 1 decreases 2048 - rangeindex
+
+//@ func Language.mapping$2
+//@   assigns chineseTraditionalMapping
+//@   ensures [C02,C03,C08,C13] built: isInverse(chineseTraditionalMapping, ChineseTraditional) && fresh(chineseTraditionalMapping)
+//@   loop 1 assigns MDom[chineseTraditionalMapping], MVal[chineseTraditionalMapping]
+//@   loop 1 invariant range: -1 <= rangeindex && rangeindex < 2048 && fresh(chineseTraditionalMapping)
+//@   loop 1 invariant prefix: prefixInverse(chineseTraditionalMapping, ChineseTraditional, rangeindex+1)
+//@   loop 1 decreases 2048 - rangeindex
+
+//@ func Language.mapping$3
+//@   assigns englishMapping
+//@   ensures [C02,C03,C08,C13] built: isInverse(englishMapping, English) && fresh(englishMapping)
+//@   loop 1 assigns MDom[englishMapping], MVal[englishMapping]
+//@   loop 1 invariant range: -1 <= rangeindex && rangeindex < 2048 && fresh(englishMapping)
+//@   loop 1 invariant prefix: prefixInverse(englishMapping, English, rangeindex+1)
+//@   loop 1 decreases 2048 - rangeindex
+
+//@ func Language.mapping$4
+//@   assigns frenchMapping
+//@   ensures [C02,C03,C08,C13] built: isInverse(frenchMapping, French) && fresh(frenchMapping)
+//@   loop 1 assigns MDom[frenchMapping], MVal[frenchMapping]
+//@   loop 1 invariant range: -1 <= rangeindex && rangeindex < 2048 && fresh(frenchMapping)
+//@   loop 1 invariant prefix: prefixInverse(frenchMapping, French, rangeindex+1)
+//@   loop 1 decreases 2048 - rangeindex
+
+//@ func Language.mapping$5
+//@   assigns italianMapping
+//@   ensures [C02,C03,C08,C13] built: isInverse(italianMapping, Italian) && fresh(italianMapping)
+//@   loop 1 assigns MDom[italianMapping], MVal[italianMapping]
+//@   loop 1 invariant range: -1 <= rangeindex && rangeindex < 2048 && fresh(italianMapping)
+//@   loop 1 invariant prefix: prefixInverse(italianMapping, Italian, rangeindex+1)
+//@   loop 1 decreases 2048 - rangeindex
+
+//@ func Language.mapping$6
+//@   assigns japaneseMapping
+//@   ensures [C02,C03,C08,C13] built: isInverse(japaneseMapping, Japanese) && fresh(japaneseMapping)
+//@   loop 1 assigns MDom[japaneseMapping], MVal[japaneseMapping]
+//@   loop 1 invariant range: -1 <= rangeindex && rangeindex < 2048 && fresh(japaneseMapping)
+//@   loop 1 invariant prefix: prefixInverse(japaneseMapping, Japanese, rangeindex+1)
+//@   loop 1 decreases 2048 - rangeindex
+
+//@ func Language.mapping$7
+//@   assigns spanishMapping
+//@   ensures [C02,C03,C08,C13] built: isInverse(spanishMapping, Spanish) && fresh(spanishMapping)
+//@   loop 1 assigns MDom[spanishMapping], MVal[spanishMapping]
+//@   loop 1 invariant range: -1 <= rangeindex && rangeindex < 2048 && fresh(spanishMapping)
+//@   loop 1 invariant prefix: prefixInverse(spanishMapping, Spanish, rangeindex+1)
+//@   loop 1 decreases 2048 - rangeindex
+
+//@ func Language.mapping$8
+//@   assigns koreanMapping
+//@   ensures [C02,C03,C08,C13] built: isInverse(koreanMapping, Korean) && fresh(koreanMapping)
+//@   loop 1 assigns MDom[koreanMapping], MVal[koreanMapping]
+//@   loop 1 invariant range: -1 <= rangeindex && rangeindex < 2048 && fresh(koreanMapping)
+//@   loop 1 invariant prefix: prefixInverse(koreanMapping, Korean, rangeindex+1)
+//@   loop 1 decreases 2048 - rangeindex
+
+//@ func Language.mapping$9
+//@   assigns czechMapping
+//@   ensures [C02,C03,C08,C13] built: isInverse(czechMapping, Czech) && fresh(czechMapping)
+//@   loop 1 assigns MDom[czechMapping], MVal[czechMapping]
+//@   loop 1 invariant range: -1 <= rangeindex && rangeindex < 2048 && fresh(czechMapping)
+//@   loop 1 invariant prefix: prefixInverse(czechMapping, Czech, rangeindex+1)
+//@   loop 1 decreases 2048 - rangeindex
+
+//@ func Language.mapping$10
+//@   assigns portugueseMapping
+//@   ensures [C02,C03,C08,C13] built: isInverse(portugueseMapping, Portuguese) && fresh(portugueseMapping)
+//@   loop 1 assigns MDom[portugueseMapping], MVal[portugueseMapping]
+//@   loop 1 invariant range: -1 <= rangeindex && rangeindex < 2048 && fresh(portugueseMapping)
+//@   loop 1 invariant prefix: prefixInverse(portugueseMapping, Portuguese, rangeindex+1)
+//@   loop 1 decreases 2048 - rangeindex
+
+//@ func Language.mapping
+//@   assigns mappings
+//@   ensures [C02,C03,C08,C10,C15] supported: implies(supported(lan), isInverse(result, lan))
+//@   ensures [C03,C14,C15] unsupported: implies(!supported(lan), result == nil)
+// ---------------------------------------------------------------------------
+// validation
+
+//@ define allKnown(t, l, n) = forall(j, 0, n, widx(l, sat(t, j)) >= 0)
+//@ define checksumOK(t, l, n) = acc(t, l, n, n) % pow2(n/3) == sha0(mk(acc(t, l, n, n)/pow2(n/3), 4*(n/3))) / pow2(8-n/3)
+//@ define validTokens(t, l) = supported(l) && validCount(slen(t)) && allKnown(t, l, slen(t)) && checksumOK(t, l, slen(t))
+
+//@ func CheckMnemonic
+//@   let t = split(nfkd(mnemonic), " ")
+//@   let n = slen(t)
+//@   assigns mappings
+//@   ensures [C02,C03,C10,C13,C15] F1: implies(!validCount(n), result == ErrWordLen)
+//@   ensures [C02,C03,C10,C13,C15] F2: implies(validCount(n) && !allKnown(t, lg, n), result != nil && !is(result, ErrWordLen) && !is(result, ErrChecksumIncorrect) && exists(j, 0, n, widx(lg, sat(t, j)) < 0 && contains(msg(result), sat(t, j))))
+//@   ensures [C02,C03,C10,C13,C15] F3: implies(validCount(n) && allKnown(t, lg, n) && !checksumOK(t, lg, n), result == ErrChecksumIncorrect)
+//@   ensures [C02,C03,C10,C13,C15] F4: implies(validCount(n) && allKnown(t, lg, n) && checksumOK(t, lg, n), result == nil)
+//@   loop 1 assigns BigVal[entBig]
+//@   loop 1 invariant range: -1 <= rangeindex && rangeindex < wordCount && wordCount == n && validCount(n) && len(wordList) == n
+//@   loop 1 invariant tokens: seq(wordList) == t && off(wordList) == 0
+//@   loop 1 invariant map: fresh(entBig) && (isInverse(mapping, lg) || (!supported(lg) && mapping == nil))
+//@   loop 1 invariant known: forall(j, 0, rangeindex+1, widx(lg, sat(t, j)) >= 0)
+//@   loop 1 invariant value: val(entBig) == acc(t, lg, n, rangeindex+1)
+//@   loop 1 unfold acc(t, lg, n, rangeindex+2)
+//@   loop 1 decreases wordCount - rangeindex
+//@   split wordCount in {12,15,18,21,24} at loop 1 exit unfold acc(t, lg, wordCount, wordCount)
+
+//@ func IsMnemonicValid
+//@   let t = split(nfkd(m), " ")
+//@   assigns mappings
+//@   ensures [C03,C02] iff: result == (validCount(slen(t)) && allKnown(t, lg, slen(t)) && checksumOK(t, lg, slen(t)))
+
+// ---------------------------------------------------------------------------
+// generation from the randomness source, seed derivation
+
+//@ func NewMnemonic
+//@   let need = 4*length/3
+//@   let p0 = pos(cryptoRander)
+//@   assigns RPos[cryptoRander]
+//@   ghost ws SSeq = fromEntropy_ws
+//@   ensures [C09] reject: implies(!validCount(length), result == "" && is(err, ErrWordLen) && pos(cryptoRander) == p0)
+//@   ensures [C06] short: implies(validCount(length) && p0 + need > ravail(cryptoRander), result == "" && err != nil)
+//@   ensures [C06,C07,C02,C09] ok: implies(validCount(length) && p0 + need <= ravail(cryptoRander), err == nil && pos(cryptoRander) == p0 + need && result == join(ws, sepOf(lang)) && slen(ws) == length)
+//@   ensures [C06,C07,C02] words: implies(validCount(length) && p0 + need <= ravail(cryptoRander) && supported(lang), forall(j, 0, length, sat(ws, j) == lst(lang, digit(V(rseg(cryptoRander, p0, need)), length-1-j))))
+//@   ensures [C09] nonempty: implies(err == nil, result != "")
+
+//@ func MnemonicToSeed
+//@   ensures [C04] fresh: fresh(result) && len(result) == 64 && off(result) == 0
+//@   ensures [C04,C11] value: bytes(result) == pbkdf2(bytesOf(nfkd(mnemonic)), bcat(bytesOf("mnemonic"), bytesOf(nfkd(passphrase))), 2048, 64, 512)
